@@ -344,10 +344,24 @@ func (p *c17) build(seed uint64, tier string) []SendScenario {
 
 func (p *c17) Gen(seed uint64, i int, tier string) (any, bool) {
 	l := p.build(seed, tier)
-	if i >= len(l) {
+	// thorough: the whole enumeration eight times over, each round with its own draws for
+	// everything the enumeration leaves open (client configuration swarm, timeouts, contexts,
+	// schedules)
+	rounds := 1
+	if tier == "thorough" {
+		rounds = 8
+	}
+	if len(l) == 0 || i >= len(l)*rounds {
 		return nil, false
 	}
-	s := l[i]
+	if r := i / len(l); r > 0 {
+		l2 := p.build(sim.Derive(seed, 17, 777, uint64(r)), tier)
+		if i%len(l) >= len(l2) {
+			return nil, false
+		}
+		l = l2
+	}
+	s := l[i%len(l)]
 	return &s, true
 }
 
@@ -505,7 +519,7 @@ func (p *c17) Shrink(scAny any) []any {
 
 func (p *c17) Info() PropInfo {
 	return PropInfo{
-		Rule: "enumeration: go-mail's own dialers as well (no WithDialContextFunc: net.Dialer + STARTTLS, tls.Dialer for implicit TLS whose handshake only the dial context bounds, WithSSLPort(true) with a failing first dial, a plain or silent peer where TLS was expected); {DialWithContext, DialAndSend, Send (two calls), Reset} x TLS mode x auth class x silent point (each server message of the dialogue at {server stops, nothing arrives, half arrives}; byte offsets inside the TLS handshake flights; server stops reading before a command / inside the content with small send windows; server stops reading right after its 354 x content size {100 B .. 20 kB, around the client's 4 KiB write buffer} x send window {64 B .. 64 KiB}); a third of the calls carry a caller context whose own deadline lies later than the timeout; a quarter of the Clients use WithoutNoop; a dial function that blocks until its context is done (DialWithContext, DialAndSend); DialAndSend of an empty batch with a silent QUIT; a second DialWithContext while the server of the earlier, still open session is silent; timeouts drawn from 1..30 s; a case is non-trivial when the stall took effect while or before a judged call ran; distinct = distinct (op, TLS, auth, silent point)",
+		Rule: "enumeration (thorough: eight rounds of it, each with fresh draws for what the enumeration leaves open): go-mail's own dialers as well (no WithDialContextFunc: net.Dialer + STARTTLS, tls.Dialer for implicit TLS whose handshake only the dial context bounds, WithSSLPort(true) with a failing first dial, a plain or silent peer where TLS was expected); {DialWithContext, DialAndSend, Send (two calls), Reset} x TLS mode x auth class x silent point (each server message of the dialogue at {server stops, nothing arrives, half arrives}; byte offsets inside the TLS handshake flights; server stops reading before a command / inside the content with small send windows; server stops reading right after its 354 x content size {100 B .. 20 kB, around the client's 4 KiB write buffer} x send window {64 B .. 64 KiB}); a third of the calls carry a caller context whose own deadline lies later than the timeout; a quarter of the Clients use WithoutNoop; a dial function that blocks until its context is done (DialWithContext, DialAndSend); DialAndSend of an empty batch with a silent QUIT; a second DialWithContext while the server of the earlier, still open session is silent; timeouts drawn from 1..30 s; a case is non-trivial when the stall took effect while or before a judged call ran; distinct = distinct (op, TLS, auth, silent point)",
 		Assumptions: []string{"a peer that stops in the middle of a plain-text reply line may cost two timeouts instead of one: the standard library (bufio.ReadLine under net/textproto) returns the truncated line as a complete reply when the deadline expires, after which one more step starts with its own timeout",
 			"when the peer stops reading on a TLS connection, 5 s are added to the bound: crypto/tls bounds the close_notify write of Close by a fixed 5 s deadline, and C19 requires the Close",
 			"the bound is measured on the simulated clock from the instant the first suppressed byte was written (or the server stopped) to the return of the call; slack 1 ms of virtual time for kernel park ticks",
